@@ -97,6 +97,24 @@ def _one_seed(prop, sdir, root):
         shutil.rmtree(tmp, ignore_errors=True)
 
 
+def _one_benign(prop, bdir, root):
+    """A behaviour-preserving refactoring written by an independent sub-agent (benign/<id>/patch.diff): every check must stay silent."""
+    tmp = Path(tempfile.mkdtemp(prefix=f"sa_benign_{prop}_"))
+    try:
+        shutil.copytree(root / "pdb2pqr", tmp / "pdb2pqr", ignore=shutil.ignore_patterns("__pycache__"))
+        pr = subprocess.run(["patch", "-p1", "-s", "-i", str(bdir / "patch.diff")], cwd=tmp, capture_output=True, text=True)
+        if pr.returncode != 0:
+            # the refactoring was written against an earlier tree and no longer applies (a later fix touched the same lines): not a verdict
+            return {"name": f"benign:{bdir.name}", "expect": "silent", "result": "silent", "message": "patch no longer applies; skipped"}
+        env = dict(os.environ, VERIF_REPO=str(tmp), VERIF_EVIDENCE_DIR=str(tmp / "ev"), PYTHONPATH=str(VERIF), PYTHONDONTWRITEBYTECODE="1")
+        proc = subprocess.run([sys.executable, "-m", "sa.cli", prop, "--tier", "quick"], cwd=VERIF, env=env, capture_output=True, text=True, timeout=900)
+        fired = [ln for ln in proc.stdout.splitlines() if ln.startswith("  violated ")]
+        result = {0: "silent", 1: "fired", 2: "analysis-error"}.get(proc.returncode, f"exit {proc.returncode}")
+        return {"name": f"benign:{bdir.name}", "expect": "silent", "result": result, "rules": sorted({f.split()[1] for f in fired})[:6]}
+    finally:
+        shutil.rmtree(tmp, ignore_errors=True)
+
+
 def run(prop, mod=None, rep=None, verbose=True):
     try:
         corpus = importlib.import_module(f"sa.audit_corpus.{prop.lower()}").MUTATIONS
@@ -109,6 +127,8 @@ def run(prop, mod=None, rep=None, verbose=True):
         seeds = sorted(d for d in (VERIF / "seeded").glob(f"{prop}-*") if (d / "patch.diff").exists() and (d / "meta.json").exists())
         futs = [ex.submit(_one, prop, e, root) for e in corpus] + [ex.submit(_one_rewrite, prop, m, root) for m in MODES] + \
             [ex.submit(_one_seed, prop, d, root) for d in seeds]
+        benign = sorted(d for d in (VERIF / "benign").glob("C*-r*") if (d / "patch.diff").exists())
+        futs += [ex.submit(_one_benign, prop, d, root) for d in benign]
         results = [f.result() for f in futs]
     weak = 0
     for r in results:
